@@ -89,7 +89,11 @@ class DepSet(boolean.AndRestriction, caching=False):
                     if not depsets[-1] or not raw_conditionals:
                         raise DepsetParseError(dep_str, attr=attr)
                     elif raw_conditionals[-1] in operators:
-                        if len(depsets[-1]) == 1:
+                        if len(depsets[-1]) == 1 and getattr(
+                            operators[raw_conditionals[-1]],
+                            "_evaluate_collapse_single",
+                            True,
+                        ):
                             depsets[-2].append(depsets[-1][0])
                         else:
                             depsets[-2].append(
